@@ -275,6 +275,34 @@ def coq_check_props(area, propfile="Properties.v", timeout=1500, extra_targets=(
     return res
 
 
+def coqchk(area, propfile="Properties.v", timeout=900):
+    """Independent re-check of the compiled Properties file and everything it depends on (coqchk -o).  The stand-alone
+    checker has no VM: developments whose proofs are complete kernel sweeps by vm_compute may exceed the time limit, which is
+    recorded (status "timeout") and is not a failure of the proof -- the kernel already accepted it during make."""
+    d = coq_dir(area)
+    lib = None
+    for l in open(os.path.join(d, "_CoqProject")):
+        t = l.split()
+        if len(t) >= 3 and t[0] in ("-Q", "-R") and t[1] == ".":
+            lib = t[2]
+    mod = (lib or area) + "." + propfile[:-2].replace("/", ".")
+    t0 = time.time()
+    rc, out = sh(["coqchk", "-silent", "-o"] + coqproject_args(d) + [mod], cwd=d, timeout=timeout)
+    res = {"cmd": "coqchk -silent -o " + " ".join(coqproject_args(d)) + " " + mod, "wall_s": round(time.time() - t0, 1),
+           "axioms": "", "unsafe": False, "output": out[-1500:]}
+    if rc == 0:
+        m = re.search(r"\* Axioms:\s*(.*?)\n\s*\n", out, flags=re.S)
+        res["axioms"] = " ".join(m.group(1).split()) if m else "?"
+        others = re.findall(r"\* (?:Constants/Inductives relying on [^:]*|Inductives whose positivity is assumed):\s*(\S+)", out)
+        res["unsafe"] = any(o != "<none>" for o in others)
+        res["status"] = "ok"
+    elif time.time() - t0 >= timeout - 2 or rc in (124, -9, -15):
+        res["status"] = "timeout"
+    else:
+        res["status"] = "failed"
+    return res
+
+
 def coqproject_args(d):
     args = []
     for l in open(os.path.join(d, "_CoqProject")):
@@ -317,6 +345,22 @@ def forbidden_scan(d):
         for m in FORBIDDEN.finditer(txt):
             line = txt.count("\n", 0, m.start()) + 1
             bad.append("%s:%d:%s" % (os.path.relpath(p, ROOT), line, m.group(1)))
+        # Variable / Hypothesis / Context outside a Section declare axioms: track Section/Module nesting
+        stack = []
+        for m in re.finditer(r"^[ \t]*(?:(?:Local|Global|Polymorphic|#\[[^\]]*\])\s+)*(Section|Module(?:\s+Type)?|End|Variables?|Hypothes[ie]s|Context)\b\s*([A-Za-z0-9_']*)([^.]*)\.",
+                             txt, flags=re.M):
+            kw, name, rest = m.group(1), m.group(2), m.group(3)
+            if kw == "Section":
+                stack.append("S")
+            elif kw.startswith("Module"):
+                if ":=" not in rest:          # `Module M := N.` opens nothing
+                    stack.append("M")
+            elif kw == "End":
+                if stack:
+                    stack.pop()
+            elif "S" not in stack:
+                line = txt.count("\n", 0, m.start()) + 1
+                bad.append("%s:%d:%s outside a Section" % (os.path.relpath(p, ROOT), line, kw))
     return bad
 
 
@@ -490,6 +534,18 @@ class Check:
         if res["ok"]:
             self.cov["discharged"] += n
             self.cov.setdefault("print_assumptions", {}).update(res["assumptions"])
+            if self.tier == "thorough" and os.environ.get("VERIF_COQCHK", "1") != "0":
+                self.cov.setdefault("coqchk", {})[area + "/" + propfile] = coqchk(area, propfile)
+                r = self.cov["coqchk"][area + "/" + propfile]
+                if r["status"] == "failed":
+                    self.broke("coqchk rejects coq/%s (%s)" % (area, propfile), r["output"])
+                else:
+                    # coqchk -o lists the axioms of every LOADED library (e.g. the real-number axioms when Psatz/Lra is
+                    # required), not those a theorem depends on (Print Assumptions says that).  Standard-library axioms are
+                    # recorded; an axiom from any other namespace, or a switched-off kernel check, is a broken obligation.
+                    own = [a for a in r["axioms"].split() if a not in ("<none>", "?") and not a.startswith("Coq.")]
+                    if r["status"] == "ok" and (own or r["unsafe"]):
+                        self.broke("coqchk reports non-standard-library axioms or unsafe constants in coq/%s (%s)" % (area, propfile), r["output"])
         else:
             if res["forbidden"]:
                 self.broke("forbidden construct in coq/%s: %s" % (area, ", ".join(res["forbidden"][:5])))
